@@ -117,7 +117,7 @@ void promise_dtor(PROMISE *p) {
  *                 1: resolves synchronously with gh_env_val      2: drops the promise (ready, no value) */
 int gh_env_choice; cv_i32 gh_env_val; unsigned gh_env_calls; FUT *gh_env_owner;
 #define GH_ENV gh_env_calls, gh_env_owner
-#ifdef CV_HAS_env_promise_fn
+#if defined(CV_HAS_env_promise_fn) && !defined(C17_DRIVE)      /* the drive supplies its own (it keeps the real promise) */
 void env_promise_fn(PFN *fn, PROMISE *p) {
   FUT *f = p->_owner._M_b._M_p;
   gh_env_calls++; gh_env_owner = f;
@@ -308,7 +308,7 @@ __CPROVER_ensures(SI(H_CB(this_)))
 #ifdef CV_HAS_sf_init_if_needed
 void sf_init_if_needed(SF *this_)
 __CPROVER_requires(MODEL_PRE && __CPROVER_is_fresh(this_, sizeof(*this_)))
-REQ_H_EMPTY_OR_INITIALISED(this_)
+REQ_H_SHAPE(this_, 1)
 __CPROVER_requires(PEQ(gh_cb0, H_CB(this_)) && PEQ(gh_obj0, H_OBJ(this_)) && (gh_cb0 != 0 ==> gh_c0 == gh_cb0->strong))
 __CPROVER_assigns(__CPROVER_object_whole(this_), GH_MAKE)
 __CPROVER_ensures(cv_exc_pending == 0 && gh_frees == __CPROVER_old(gh_frees))
@@ -347,6 +347,7 @@ __CPROVER_ensures(gh_sub_ok == 1 && SLOT(H_OBJ(this_)) == TR_AW(H_OBJ(this_)) &&
 cv_i1 sf_ready(SF *this_)
 __CPROVER_requires(MODEL_PRE && __CPROVER_is_fresh(this_, sizeof(*this_)))
 REQ_H_SHAPE(this_, 1)
+__CPROVER_requires(gh_cb0 == H_CB(this_))
 __CPROVER_assigns()
 __CPROVER_ensures(cv_exc_pending == 0 && __CPROVER_return_value == ((H_CB(this_) != 0 && IS_READY(H_OBJ(this_))) ? 1 : 0))
 ;
@@ -358,6 +359,7 @@ cv_i32 *sf_value(SF *this_)
 __CPROVER_requires(MODEL_PRE && __CPROVER_is_fresh(this_, sizeof(*this_)))
 REQ_H_SHAPE(this_, 1)
 __CPROVER_requires(H_CB(this_) != 0 ==> STATE(H_OBJ(this_)) <= ST_VALUE)                    /* value / no value; stored exception and reference states: not covered */
+__CPROVER_requires(gh_cb0 == H_CB(this_))
 __CPROVER_assigns(cv_exc_pending, cv_exc_obj, cv_exc_tinfo)
 __CPROVER_ensures((H_CB(this_) != 0 && STATE(H_OBJ(this_)) == ST_VALUE) ==> (cv_exc_pending == 0 && __CPROVER_return_value == &VALUE(H_OBJ(this_))))
 __CPROVER_ensures(H_CB(this_) == 0 ==> (cv_exc_pending == 1 && cv_exc_tinfo == (void *)TI_NOT_READY))
